@@ -128,7 +128,25 @@ def _r3(prog, rep):
                 "wrap_first_fit receives %s instead of line_widths.iter().map(|w| *w as f64).collect()" % describe(arm[2][1], body)[:200])
 
 
+def _word_fragment(prog, rep):
+    """R4: Word's Fragment impl reports its cached width and the byte lengths of whitespace / penalty."""
+    want = {"width": ("field", None, "width"), "whitespace_width": ("call", "str::len", (("field", None, "whitespace"),)),
+            "penalty_width": ("call", "str::len", (("field", None, "penalty"),))}
+    for meth, w in want.items():
+        key = "crate::<core::Word as core::Fragment>::%s" % meth
+        body = prog.need_body(key)
+        s = sym_of(body)
+        r = Rule(rep, "C07.R4", key, site=body.span)
+        ret = prog.simp(s.val((0, ()), body.cfg.returns[0], "term"), body)
+        SELF = ("param", 1, body.arg_names.get(1, "_1"))
+        exp = ("field", SELF, "width") if meth == "width" else ("call", "str::len", (("field", SELF, w[2][0][2]),))
+        r.check(ret == ("cast", "IntToFloat", exp, "f64"), "word-%s" % meth, "Word::%s() = %s as f64" % (meth, describe(exp, body)),
+                describe(ret, body)[:100], "Word's Fragment::%s returns %s; expected %s as f64 (the quantity the text-level width bound "
+                "is stated in)" % (meth, describe(ret, body)[:120], describe(exp, body)))
+
+
 def run(prog, rep):
+    guarded(rep, "C07.R4", "crate::<core::Word as core::Fragment>", lambda: _word_fragment(prog, rep))
     box = {}
     guarded(rep, "C07.R1", "crate::wrap_algorithms::wrap_first_fit", lambda: box.setdefault("lw", _r1(prog, rep)))
     if box.get("lw") is not None:
